@@ -1337,13 +1337,24 @@ class SubElementTextListProperty(_ElementListProperty):
     On xml side every string is a text of a sub element.
     """
 
-    def __init__(self, sub_element_name: etree.QName | None, value_class: Any, is_optional: bool = True):
-        super().__init__(sub_element_name, ListConverter(ClassCheckConverter(value_class)), is_optional=is_optional)
+    def __init__(self, sub_element_name: etree.QName | None, value_class: Any, is_optional: bool = True,
+                 element_converter: DataConverterProtocol | None = None):
+        """Construct a SubElementTextListProperty.
+
+        :param element_converter: optional converter between the text of a sub element and the python value
+                                  (needed if value_class is not str).
+        """
+        super().__init__(sub_element_name,
+                         ListConverter(element_converter or ClassCheckConverter(value_class)),
+                         is_optional=is_optional)
+        self._element_converter = element_converter
 
     def get_py_value_from_node(self, instance: Any, node: xml_utils.LxmlElement) -> Any:  # noqa: ARG002
         """Read value from node."""
         nodes = node.findall(self._sub_element_name)
-        return [_node.text for _node in nodes]
+        if self._element_converter is None:
+            return [_node.text for _node in nodes]
+        return [self._element_converter.to_py(_node.text) for _node in nodes]
 
     def update_xml_value(self, instance: Any, node: xml_utils.LxmlElement):
         """Write value to node."""
@@ -1362,7 +1373,7 @@ class SubElementTextListProperty(_ElementListProperty):
         for val in py_value:
             child = etree.SubElement(node, self._sub_element_name)
             try:
-                child.text = val
+                child.text = val if self._element_converter is None else self._element_converter.to_xml(val)
             except TypeError as ex:
                 # re-raise with better info about data
                 raise TypeError(f'{ex} in {self}') from ex  # noqa: EM102
